@@ -42,8 +42,9 @@ pub fn convex_radial() -> BoxedStrategy<ShapeSpec> {
 
 pub fn line_shape_spec() -> BoxedStrategy<ShapeSpec> {
     prop_oneof![
-        3 => (3usize..=12).prop_map(|sides| ShapeSpec::Polygon { sides }),
-        1 => convex_radial(),
+        12 => (3usize..=12).prop_map(|sides| ShapeSpec::Polygon { sides }),
+        1 => proptest::sample::select(vec![16usize, 24, 37, 64]).prop_map(|sides| ShapeSpec::Polygon { sides }),
+        4 => convex_radial(),
     ]
     .boxed()
 }
@@ -51,13 +52,15 @@ pub fn line_shape_spec() -> BoxedStrategy<ShapeSpec> {
 /// trimers over the physically meaningful box, including the CLI default, triple overlaps, containment,
 /// distance 0
 pub fn trimer_spec() -> BoxedStrategy<ShapeSpec> {
-    (
+    let usual = (
         mixf(0.05, 1.5, vec![0.637556, 0.7, 1.0, 0.5]),
         mixf(0., 180., vec![120., 60., 90., 180., 0.]),
         mixf(0., 2.5, vec![1.0, 0.0, 0.3, 2.0]),
     )
-        .prop_map(|(radius, angle, distance)| ShapeSpec::Trimer { radius, angle, distance })
-        .boxed()
+        .prop_map(|(radius, angle, distance)| ShapeSpec::Trimer { radius, angle, distance });
+    // legal but unusual: large outer discs, long arms, tiny discs
+    let unusual = (prop_oneof![1.5..4.0f64, 0.001..0.05f64], mixf(0., 180., vec![120.]), prop_oneof![2.5..6.0f64, 0.0..0.01f64]).prop_map(|(radius, angle, distance)| ShapeSpec::Trimer { radius, angle, distance });
+    prop_oneof![12 => usual, 1 => unusual].boxed()
 }
 
 /// trimers whose three discs have a well-defined union boundary for the *package's* formula domain:
